@@ -53,6 +53,19 @@ func ruleR22(c *Ctx) *RuleResult {
 	for _, f := range upFns {
 		upNames[fnName(f)] = true
 	}
+	// a function whose whole body is one call of an up-sifter (the start slot is checked at that call site by R41)
+	upWrapper := map[string]bool{}
+	for nm, f := range ms {
+		if f.Blocks == nil || upNames[nm] {
+			continue
+		}
+		gcw := c.GC(f)
+		if gcw.Undecided == "" && len(gcw.GCs) == 1 && len(gcw.GCs[0].Effects) == 1 {
+			if n2, a2, ok := effDo(gcw.GCs[0].Effects[0]); ok && upNames[n2] && len(a2) >= 1 && a2[0].String() == "p:0" {
+				upWrapper[nm] = true
+			}
+		}
+	}
 	hasDown := func(cs []string) bool {
 		for _, x := range cs {
 			if downNames[x] {
@@ -65,12 +78,30 @@ func ruleR22(c *Ctx) *RuleResult {
 		var bad []string
 		nok := 0
 		for _, g := range c.GC(fn).GCs {
+			// the empty heap decided by its size (instead of by Get's second result): nothing happens, (zero, false)
+			emptyBySize := false
+			for _, a := range g.Guards {
+				s := noEpoch(a)
+				if strings.Contains(s, "(fa:list p:0)") && (strings.HasPrefix(s, "(< (- (len ") && strings.HasSuffix(s, "#:1) #:0)") || strings.HasPrefix(s, "(== #:0 (len ") || strings.HasPrefix(s, "(<= (len ") && strings.HasSuffix(s, " #:0)")) {
+					emptyBySize = true
+				}
+			}
+			if emptyBySize && g.Exit.Op == "return" && len(g.Exit.Args) == 2 && g.Exit.Args[1].String() == "#:false" {
+				if len(g.Effects) != 0 {
+					bad = append(bad, "Pop on an empty heap has effects")
+				}
+				continue
+			}
 			if g.Exit.Op != "return" || len(g.Exit.Args) != 2 || !isGet0(g.Exit.Args[0]) {
 				bad = append(bad, "Pop does not return the element read from slot 0")
 				continue
 			}
 			okPath := false
 			for _, a := range g.Guards {
+				s := noEpoch(a)
+				if strings.Contains(s, "(fa:list p:0)") && (strings.HasPrefix(s, "(<= #:0 (- (len ") || strings.HasPrefix(s, "(!= #:0 (len ") || strings.HasPrefix(s, "(< #:0 (len ")) && g.Exit.Args[1].String() == "#:true" {
+					okPath = true // non-empty by size
+				}
 				if isGet0(a) && a.Leaf == "1" {
 					okPath = true
 				}
@@ -88,6 +119,22 @@ func ruleR22(c *Ctx) *RuleResult {
 				if _, a, ok := effDo(g.Effects[len(g.Effects)-1]); ok && len(a) == 2 && a[0].String() == "p:0" && a[1].String() == "#:0" {
 					cs[2] = "bubbleDown"
 				}
+			}
+			if strings.Join(cs, ",") == "Set,Remove,bubbleDown" && len(g.Effects) >= 3 {
+				// the same thing without the detour of the popped element through the last slot: slot 0 takes the last
+				// element's value, the last slot is removed
+				st, rm := g.Effects[0], g.Effects[1]
+				_, sa, _ := effDo(st)
+				_, ra, _ := effDo(rm)
+				okSet := len(sa) == 3 && len(ra) == 2 && sa[1].String() == "#:0" && sa[2].Op == "ext" && sa[2].Leaf == "0" && sa[2].Args[0].Op == "call" && strings.HasSuffix(sa[2].Args[0].Leaf, ").Get") && len(sa[2].Args[0].Args) == 3 &&
+					noEpoch(sa[2].Args[0].Args[2]) == noEpoch(ra[1]) && ra[1].Op == "-" && ra[1].Args[1].String() == "#:1" && ra[1].Args[0].Op == "len"
+				if !okSet {
+					bad = append(bad, "Pop must move the last element into slot 0 and remove the last slot: "+trunc(noEpoch(st), 160)+" ; "+trunc(noEpoch(rm), 120))
+				}
+				if !strings.Contains(g.Exit.Args[0].String(), "@:e0") {
+					bad = append(bad, "the popped value is not read before slot 0 is overwritten")
+				}
+				continue
 			}
 			if strings.Join(cs, ",") != "Swap,Remove,bubbleDown" {
 				bad = append(bad, "Pop must swap slot 0 with the last slot, remove the last slot and sift down, found: "+strings.Join(cs, ","))
@@ -125,7 +172,7 @@ func ruleR22(c *Ctx) *RuleResult {
 			}
 			switch {
 			case one:
-				if !(len(cs) == 2 && cs[0] == "Add" && upNames[cs[1]]) {
+				if !(len(cs) == 2 && cs[0] == "Add" && (upNames[cs[1]] || upWrapper[cs[1]])) {
 					bad = append(bad, "pushing one value must append it and sift up, found: "+strings.Join(cs, ","))
 				} else {
 					single = true
@@ -211,6 +258,9 @@ func ruleR22(c *Ctx) *RuleResult {
 	// sift routines only swap under a strict comparator verdict and move the index to where they swapped
 	for _, nm := range []string{"bubbleUp", "bubbleDownIndex"} {
 		fn := ms[nm]
+		if fn != nil && upWrapper[nm] && nm == "bubbleUp" && len(upFns) > 0 {
+			fn = upFns[0] // bubbleUp only forwards to the function that sifts
+		}
 		if fn == nil {
 			// the role under another name
 			cands := upFns
